@@ -13,7 +13,8 @@ RULE = (
     "state = a text, transition = format_code(., cfg) on the real code; initial states = every atom program (module "
     "context; thorough: all contexts and every ordered pair of core atoms), every construct of the construct corpus, "
     "every repository example and four cascade families (each pass enables the next; n = 3..12, thorough ..30), four layout-sensitive if/else "
-    "families whose branches are short / medium / longer than the line limit (3 x 3 sizes), under cfg in {default, safe, keep_imports}; from every initial state the orbit x, "
+    "families whose branches are short / medium / longer than the line limit (3 x 3 sizes), a wrap-window family (a call / list / sum statement of every one-line "
+    "width 36..105 (quick: step 3) at nesting depths 0..15 (quick: 7 depths)), under cfg in {default, safe, keep_imports}; from every initial state the orbit x, "
     "F(x), F(F(x)), ... is followed until a text repeats or 6 applications are done. invariant: the orbit reaches a "
     "self-loop within 5 applications (F^5(x) == F^6(x)) and contains no cycle other than the self-loop. non-trivial = "
     "the first application changed the text"
@@ -42,6 +43,10 @@ def units(tier):
         for n in (1, 3, 6):
             for m in (1, 3, 6):
                 yield {"ref": ["layout", shape, n, m]}
+    for kind in WRAP_KINDS:
+        for depth in (WRAP_DEPTHS_QUICK if tier == "quick" else WRAP_DEPTHS_THOROUGH):
+            for width in range(36, 106, 3 if tier == "quick" else 1):
+                yield {"ref": ["wrap", kind, depth, width]}
     for n in corpus.CONSTRUCTS:
         yield {"ref": ["construct", n, "alone"]}
     for e in corpus.repo_examples():
@@ -86,10 +91,36 @@ def layout_sensitive(shape, n, m):
 
 LAYOUT_SHAPES = ["if_return_return", "if_else_return", "loop_continue", "if_else_call"]
 
+# one statement of an exact one-line width at an exact nesting depth (family added after the seeded change
+# C09-line-length-nested-pass-rejoins: the line-wrapping stage splits at the limit minus the indentation in one pass and
+# re-joins in another; the window depends on both numbers)
+WRAP_KINDS = {"call": ("value = compute(", ")"), "list": ("value = [", "]"), "sum": ("value = (", ")")}
+WRAP_DEPTHS_QUICK = (0, 4, 8, 10, 11, 12, 14)
+WRAP_DEPTHS_THOROUGH = tuple(range(0, 16))
+
+
+def wrap_window(kind, depth, width):
+    head, tail = WRAP_KINDS[kind]
+    sep = " + " if kind == "sum" else ", "
+    args = []
+    while len(head + sep.join(args + ["a%d" % len(args)]) + tail) <= width:
+        args.append("a%d" % len(args))
+    pad = width - len(head + sep.join(args) + tail)
+    if args and pad > 0:
+        args[-1] = args[-1] + "x" * pad
+    stmt = head + sep.join(args) + tail
+    params = ", ".join(args) or "a0"
+    body = "".join("    " * (i + 1) + "if flag > %d:\n" % i for i in range(depth))
+    ind = "    " * (depth + 1)
+    return ("def build(flag, %s):\n    value = None\n" % params + body + ind + stmt + "\n" + ind + "flag += 1\n    return value\n"
+            + "print(build(%d, %s))\n" % (depth, ", ".join("1" for _ in (args or [0]))))
+
 
 def get(ref):
     if ref[0] == "layout":
         return layout_sensitive(ref[1], ref[2], ref[3])
+    if ref[0] == "wrap":
+        return wrap_window(ref[1], ref[2], ref[3])
     if ref[0] == "cascade":
         return CASCADES[ref[1]](ref[2])
     if ref[0] == "prog":
